@@ -116,6 +116,8 @@ def gen_workload(tape, *, max_funcs=5, max_size=3, allow_gen=True, allow_tuple=T
             fd["debug"] = True
         if tape.coin(0.05, "profile-flag"):
             fd["profile"] = True  # every call runs under a ResourceProfiler (a real sampling thread)
+        if tape.coin(0.1, "closure"):
+            fd["closure"] = True  # the user function is a closure (only cloudpickle can serialise it)
         if n_out == 1 and kind != "gen" and tape.coin(0.1, "sequence-valued"):
             fd["seq_out"] = True  # each element / the single result is a 2-tuple
         elif n_out == 1 and kind != "gen" and tape.coin(0.1, "result-like"):
@@ -363,6 +365,10 @@ def build_pipeline(w, *, cached=(), tags=None, **pipeline_kwargs):
                 result_like=bool(fd.get("result_like")) and not fd.get("out_shape") and not fd.get("none_mod"),
                 public_name=fd.get("public_name"),
                 data_like=fd.get("data_like") if not fd.get("out_shape") and not fd.get("none_mod") else False)
+        if fd.get("closure"):
+            from .userfuncs import as_closure
+
+            fn = as_closure(fn)
         out = fd["outputs"][0] if len(fd["outputs"]) == 1 else tuple(fd["outputs"])
         kw = {}
         if fd.get("out_shape") and w.get("internal_via", "pipefunc") in ("pipefunc", "both"):
@@ -416,6 +422,7 @@ def describe(w):
              **({"dict_out": True} if fd.get("dict_out") else {}),
              **({"debug": True} if fd.get("debug") else {}),
              **({"profile": True} if fd.get("profile") else {}),
+             **({"closure": True} if fd.get("closure") else {}),
              **({"public_name": fd["public_name"]} if fd.get("public_name") else {}),
              **({"result_like": True} if fd.get("result_like") else {}),
              **({"data_like": fd["data_like"]} if fd.get("data_like") else {}),
